@@ -20,6 +20,10 @@ type Gen struct {
 	Total int
 	Salt  int // derived from VERIF_SEED: varies which members/validators/heads are sampled
 	buf   []Case
+	// suffix of the `what` of block cases (class of the block's history, e.g. a parent several epochs back)
+	blockTag string
+	// same for contribution cases (head block in an earlier sync-committee period than the contribution)
+	contribTag string
 }
 
 var hexLit = regexp.MustCompile(`0x[0-9a-f]{17,}`)
